@@ -329,7 +329,69 @@ def job(args):
         w.close()
 
 
+def client_ops(args):
+    '''the real lock client (shelve.model.Interface load / update, which wrap
+    their table traffic in comms.acquire / comms.release) against the real
+    server over the loopback: however an operation ends - normally, aborted by
+    the pipeline, with an invalid value, with an unpicklable value - the lock is
+    free afterwards and the next operation gets it'''
+    tier, seed = args
+    import dawgie
+    import dawgie.context
+    import dawgie.db
+    from dawgie.db.shelve.state import DBI
+    from . import world, mini
+
+    ctx = common.Ctx('C13', tier, seed, LEVEL)
+    endings = ('normal', 'aborted', 'invalid-value', 'unpicklable-value')
+    for op in ('load', 'update'):
+        for ending in endings:
+            if op == 'load' and ending not in ('normal', 'aborted'):
+                continue
+            w = world.StoreWorld()
+            try:
+                val = mini.Val('c0')
+                if ending == 'invalid-value':
+                    val = object()
+                elif ending == 'unpicklable-value':
+                    val = mini.Val(lambda: None)
+                a = mini.Alg('a', svs=[mini.SV('s', values={'x': mini.Val('first'), 'y': val})])
+                if ending == 'aborted':
+                    a.abort = lambda: True
+                b = mini.Bot('t', 1, 'A', [a])
+                DBI()._DBI__reopened = True
+                ctx.count('client_ops')
+                outcome = 'returned'
+                try:
+                    ds = dawgie.db.connect(a, b, 'A')
+                    getattr(ds, op)()
+                except BaseException as e:  # noqa
+                    outcome = type(e).__name__
+                rep = {'tier': 'client', 'op': op, 'ending': ending, 'outcome': outcome}
+                holders = [p for p in world.FakeSock.live if getattr(p, '_Worker__has_lock', False)] \
+                    if hasattr(world.FakeSock, 'live') else []
+                if dawgie.context.db_lock or holders:
+                    ctx.violation(f'C13/client/lock-held-after-operation/{op}/{ending}',
+                                  f'{op} ended ({outcome}) but the lock bit is {dawgie.context.db_lock!r}', rep)
+                    dawgie.context.db_lock = False
+                    continue
+                # the next client is served
+                a2 = mini.Alg('b', svs=[mini.SV('s', values={'x': mini.Val('next')})])
+                b2 = mini.Bot('t', 1, 'A', [a2])
+                try:
+                    dawgie.db.connect(a2, b2, 'A').update()
+                except BaseException as e:  # noqa
+                    ctx.violation(f'C13/client/next-client-not-served/{op}/{ending}',
+                                  f'after {op} ({ending}: {outcome}) the next update raised {e!r}', rep)
+            finally:
+                DBI()._DBI__reopened = False
+                w.close()
+    return ctx.export()
+
+
 def run(ctx):
+    for r in common.pmap(client_ops, [(ctx.tier, ctx.seed)]):
+        ctx.merge(r)
     # (clients, state cap, connections per client in one history)
     jobs = [(ctx.tier, ctx.seed, 2, None, 2)]
     if ctx.quick():
